@@ -74,7 +74,16 @@ EXPLANATION = (
     "leave. K: ops session / durables / pick (every run a process start on a file, observed through a new connection; "
     "all kill points of a run enumerated on copies of the file). S: after run_migrations returned and the connection was "
     "closed without commit the RE-OPENED file has the fresh schema and every version once, and the next process start "
-    "changes nothing; a restart after a kill at any point converges (one classified window excepted, see notes)."
+    "changes nothing; a restart after a kill at any point converges (one classified window excepted, see notes). "
+    "Whole runs for ANY sources and ANY database (WfProofs/MigrateHist.lean): a run, returned or raised, is a trace of "
+    "(package, script) pairs applied in order whose keys are exactly the new rows (C28_run_refines_trace); no duplicate row is "
+    "ever created (C28_never_recorded_twice: the INSERT never meets the primary key); success records every non-zero version "
+    "of every source exactly once (C28_any_sources_each_version_once); a failed run names a file of a source whose version "
+    "is not recorded and is a fixed point of re-running (C28_failed_run_in_full, C28_failed_run_is_fixed_point). Two packages: "
+    "C28_second_package_converges (generic) and C28_production_converges for the call DBOSRuntime.run_migrations makes "
+    "(sources=_SQLITE_SOURCES: server then dbos), over the regenerated dbos directory and the regenerated sources list "
+    "(C28_production_shape / C28_production_table); K ops c28prodtable / c28prodrun / c28prodsession against the real "
+    "run_migrations with the real source tuples and the real packaged directories; S production_* monitors."
 )
 LEVEL_TEXT = "proof (generic theorems + decide on the regenerated table) + op-by-op correspondence + direct monitors"
 ASSUMPTIONS = [
